@@ -8,7 +8,7 @@ from ..cfg import NORMAL, Node
 from ..core import Ctx
 from ..flow import ALL, find_path, names_in, rhs_of
 from ..model import AnalysisError, ClassInfo, FunctionInfo, dotted, norm_text
-from .common import effective_returns, edge_target, kwarg, reachable_from
+from .common import effective_returns, is_canonical_base_call, edge_target, kwarg, reachable_from
 
 EXPLANATION = (
     "Static analysis of path provenance: (R1) an interprocedural taint-style def-use analysis - every filesystem sink of the "
@@ -333,7 +333,7 @@ def r2(ctx: Ctx) -> None:
         for c in cps:
             org = sl.origins(c.ast, c.id)
             fns = {(dotted(x.func) or "") for x in org["calls"] if isinstance(x, ast.Call)}
-            ok = "os.path.realpath" in fns and any(n.endswith("_real_base_path") for n in fns)
+            ok = "os.path.realpath" in fns and any(is_canonical_base_call(ctx, f, x) for x in org["calls"])
             ctx.ob("C17.R2", f, "both operands are canonical (realpath / _real_base_path)", c, ok,
                    f"operands derive from {sorted(x for x in fns if 'path' in x)}")
             # ... compared AS THEY ARE: a case-folded / lower-cased / otherwise rewritten copy makes distinct directories of a
@@ -420,8 +420,17 @@ def r2(ctx: Ctx) -> None:
         under_abs = any(edge_target(g, b, "true") is not None and j.id in reachable_from(g, edge_target(g, b, "true"), NORMAL) for b in abs_br)  # type: ignore[arg-type]
         if under_abs and not (a is not None and "lstrip" in norm_text(a)):
             bad.append(j)
-    ctx.ob("C17.R2", rp, "absolute inputs are re-rooted under the base", bad[0] if bad else (joins[0] if joins else None), bool(joins) and not bad,
-           "os.path.join(base, '/etc/passwd') would discard the base: the leading slash is stripped first")
+    scen = _rerooting_scenarios(ctx, rp)
+    if scen is None:
+        ctx.ob("C17.R2", rp, "absolute inputs are re-rooted under the base", bad[0] if bad else (joins[0] if joins else None), bool(joins) and not bad,
+               "os.path.join(base, '/etc/passwd') would discard the base: the leading slash is stripped first")
+    else:
+        wrong = [(p_, got) for p_, got, want in scen if got != want]
+        ctx.ob("C17.R2", rp, "absolute inputs are re-rooted under the base", joins[0] if joins else None, not wrong,
+               f"scenario walk (nothing is run) with base '/tbl' over {len(scen)} spellings: what reaches realpath() is the base joined "
+               "with the input minus its leading slashes, component for component" + (
+                   f" - but {wrong[0][0]!r} reaches it as {wrong[0][1]!r}: a '..' that realpath + commonpath would have caught is "
+                   "rewritten away (or the base is discarded) before the guard sees it" if wrong else ""))
     rnames = {n.ast.value.id for n in g.nodes if n.kind == "return" and n.id in g.reachable() and isinstance(n.ast.value, ast.Name)}  # type: ignore[union-attr]
     fin = [n for n in g.nodes if n.kind == "stmt" and isinstance(n.ast, ast.Assign) and norm_text(n.ast.targets[0]) in rnames]
     jn = {norm_text(j.ast) for j in joins}
@@ -549,3 +558,34 @@ def check(ctx: Ctx) -> None:
     r9_key_roundtrip(ctx, "C17.R5")
     from .c05 import r2 as c05_r2
     # PATHPREFIX (shared generic rule) is reported under C05.R2; C17 relies on R2's commonpath shape instead
+
+
+def _rerooting_scenarios(ctx: Ctx, rp: FunctionInfo) -> Optional[List[Tuple[str, object, object]]]:
+    """[(input, components reaching realpath(), expected components)] for a fixed set of spellings, or None when the evaluator
+    cannot follow the function (the syntactic rule decides then)."""
+    from .common import concrete_eval, explore, UNKNOWN
+    g = ctx.cfg(rp)
+    pn = next((p.name for p in rp.params if p.name not in ("self", "cls")), None)
+    rps = [n for n in g.calls() if n.callee is not None and n.callee.kind == "prim" and n.callee.name == "os.path.realpath"
+           and isinstance(n.ast, ast.Call) and n.ast.args and not is_canonical_base_call(ctx, rp, n.ast) and n.id in g.reachable()]
+    if pn is None or len(rps) != 1:
+        return None
+    target = rps[0]
+    out: List[Tuple[str, object, object]] = []
+    base = "/tbl"
+    for p_ in ("/etc/passwd", "//etc/passwd", "data/x.parquet", "/data/x.parquet", "/../keep.txt", "/data/../../keep.txt",
+               "/./../x", "../x", "/data/sub/../x.bin"):
+        env: Dict[str, object] = {pn: p_, (rp.self_name() or "self") + ".base_path": base}
+        vals = set()
+        for nid, store, _asm in explore(ctx, rp, [g.entry], env, stop=[target.id]):
+            if nid != target.id:
+                continue
+            sc = dict(env)
+            sc.update({k: v for k, v in store.items() if isinstance(k, (str, tuple))})
+            vals.add(concrete_eval(ctx, rp, target.ast.args[0], sc, nid))  # type: ignore[union-attr]
+        if len(vals) != 1 or not isinstance(next(iter(vals)), str):
+            return None
+        got = [c for c in next(iter(vals)).split("/") if c and c != "."]  # type: ignore[union-attr]
+        want = [c for c in base.split("/") if c] + [c for c in p_.split("/") if c and c != "."]  # ('.' names the same directory)
+        out.append((p_, got, want))
+    return out
